@@ -827,10 +827,20 @@ def into_iter(m, a, ci):
     raise EncoderGap('into_iter of %r' % (x,))
 
 
+def concretize(m, v, cap=8, what='value'):
+    """fork over the values 0..cap of a symbolic integer (one path each); a value beyond the cap is an encoder gap"""
+    v = simp(v)
+    if not is_sym(v):
+        return v
+    for k in range(cap + 1):
+        if m.ctx.branch(v == z3.BitVecVal(k, v.size())):
+            return k
+    raise EncoderGap('%s is symbolic and may exceed %d (bound it in the harness)' % (what, cap))
+
+
 def range_iter(m, r):
-    lo, hi = simp(r.fields[0]), simp(r.fields[1])
-    if is_sym(lo) or is_sym(hi):
-        raise EncoderGap('iteration over a symbolic integer range (bound it in the harness)')
+    lo = concretize(m, r.fields[0], what='start of an integer range')
+    hi = concretize(m, r.fields[1], what='end of an integer range')
     return ListIter(list(range(lo, hi)))
 
 
